@@ -42,6 +42,14 @@ func (f *Fn) walk(visit func(n ast.Node) bool) {
 	})
 }
 
+// walkDeep visits f's body and the bodies of all literals nested in it, passing the owning function.
+func (f *Fn) walkDeep(visit func(g *Fn, n ast.Node) bool) {
+	f.walk(func(n ast.Node) bool { return visit(f, n) })
+	for _, l := range f.Lits {
+		l.walkDeep(visit)
+	}
+}
+
 // Sites returns the direct matches of sel in f, in source order.
 func (f *Fn) Sites(sel Sel) []ast.Node {
 	var out []ast.Node
